@@ -64,6 +64,8 @@ def check_freeze(rep, ctx, facts, rule='R11.2'):
     ok, asserts, fails, raw = witness.check(ctx.repo, facts)
     ctxs = [(i, t) for i, (f, t) in enumerate(asserts) if t.startswith('hpke::aead::AeadCtx')]
     bad = [x for x in fails if x[0] is None or any(x[0] == i for i, _ in ctxs)]
+    # history independence needs Freeze only; a lost Send/Sync (reported by rustc on the same assertion) is C18's R18.5
+    bad = [x for x in bad if x[0] is None or not ('cannot be sent between threads' in x[2] or 'cannot be shared between threads' in x[2])]
     rep.check(not bad, rule, 'witness', 'contexts-freeze', '%d context instantiations checked by rustc, failures: %s' % (len(ctxs), bad[:2]),
               'AeadCtxS/AeadCtxR are Freeze (no interior mutability) for every AEAD x KDF x KEM combination', None)
     rep.extra['witness_assertions'] = len(ctxs)
